@@ -127,7 +127,6 @@ def Variant.fixed : Variant := ⟨true, true⟩
 structure Core where
   entryPoint : Option Nat
   notebook : Bool                    -- matches_notebook != NULL
-  leaked : Nat                       -- ghost: notebooks whose only pointer was overwritten
   found : MatchTable
   unconfirmed : MatchTable           -- only written for chained strings (not produced by `cands`)
   ruleFlags : List Nat               -- rule_matches_flags
@@ -145,7 +144,7 @@ structure Sc where
 deriving DecidableEq, Repr
 
 def Core.fresh : Core :=
-  { entryPoint := none, notebook := false, leaked := 0, found := [], unconfirmed := [], ruleFlags := [],
+  { entryPoint := none, notebook := false, found := [], unconfirmed := [], ruleFlags := [],
     reqEval := [], nsUnsat := [], strDisabled := [], modules := [], swStart := 0 }
 
 /-- `yr_scanner_create` followed by the `yr_scanner_set_*` calls giving `set`. -/
@@ -194,6 +193,18 @@ def headAct : List Act → Act × List Act
   | [] => (.ok, [])
   | a :: t => (a, t)
 
+/-- outcome of one `first`/`next` call as far as the schedule decides it -/
+inductive Step
+  | notReady (sc : List Act)
+  | fail (code : Nat) (sc : List Act)
+  | go (a : Act) (sc : List Act)      -- `a` is `ok` or a stall: the call returns the next block, or NULL at the end
+
+def stepOf (sched : List Act) : Step :=
+  match headAct sched with
+  | (.notReady, sc) => .notReady sc
+  | (.fail e, sc) => .fail e sc
+  | (a, sc) => .go a sc
+
 def tick (w : World) : Act → World
   | .stall n => { w with clock := w.clock + n }
   | _ => w
@@ -212,10 +223,10 @@ def Core.cleanMatches (c : Core) : Core :=
 
 /-- `iterator->next(iterator)` -/
 def It.next (it : It) (w : World) : Option Block × It × World :=
-  match headAct it.sched with
-  | (.notReady, sc) => (none, { it with sched := sc, lastError := .blockNotReady }, w)
-  | (.fail e, sc) => (none, { it with sched := sc, lastError := .iter e }, w)
-  | (a, sc) =>
+  match stepOf it.sched with
+  | .notReady sc => (none, { it with sched := sc, lastError := .blockNotReady }, w)
+  | .fail e sc => (none, { it with sched := sc, lastError := .iter e }, w)
+  | .go a sc =>
     match it.rest with
     | [] => (none, { it with sched := sc, lastError := .success }, tick w a)
     | b :: r => (some b, { it with rest := r, sched := sc, lastError := .success }, tick w a)
@@ -268,18 +279,16 @@ deriving DecidableEq, Repr
 def blockLoop (P : Params) (cb : Nat → CbRet) (set : Settings) :
     List Block → List Act → Core → World → LoopOut
   | rest, sched, c, w =>
-    match headAct sched with
-    | (.notReady, sc) => ⟨c, rest, sc, .blockNotReady, .blockNotReady, w, []⟩
-    | (.fail e, sc) => ⟨c, rest, sc, .iter e, .iter e, w, []⟩
-    | (a, sc) =>
-      match rest with
-      | [] => ⟨c, [], sc, .success, .success, tick w a, []⟩
-      | b :: r =>
-        match scanBlock P cb set b c (tick w a) with
-        | (c', w', ms, .success) =>
-          let o := blockLoop P cb set r sc c' w'
-          { o with msgs := ms ++ o.msgs }
-        | (c', w', ms, e) => ⟨c', r, sc, .success, e, w', ms⟩
+    match rest, stepOf sched with
+    | rest, .notReady sc => ⟨c, rest, sc, .blockNotReady, .blockNotReady, w, []⟩
+    | rest, .fail e sc => ⟨c, rest, sc, .iter e, .iter e, w, []⟩
+    | [], .go a sc => ⟨c, [], sc, .success, .success, tick w a, []⟩
+    | b :: r, .go a sc =>
+      match scanBlock P cb set b c (tick w a) with
+      | (c', w', ms, .success) =>
+        let o := blockLoop P cb set r sc c' w'
+        { o with msgs := ms ++ o.msgs }
+      | (c', w', ms, e) => ⟨c', r, sc, .success, e, w', ms⟩
 
 /-! ### rule evaluation -/
 
@@ -294,17 +303,15 @@ structure WalkOut where
     position; `rest` = blocks still to come. -/
 def walkBlocks (stop : Block → Bool) : List Block → List Act → World → WalkOut
   | rest, sched, w =>
-    match headAct sched with
-    | (.notReady, sc) => ⟨[], rest, sc, .blockNotReady, w⟩
-    | (.fail e, sc) => ⟨[], rest, sc, .iter e, w⟩
-    | (a, sc) =>
-      match rest with
-      | [] => ⟨[], [], sc, .success, tick w a⟩
-      | b :: r =>
-        if stop b then ⟨[b], r, sc, .success, tick w a⟩
-        else
-          let o := walkBlocks stop r sc (tick w a)
-          { o with seen := b :: o.seen }
+    match rest, stepOf sched with
+    | rest, .notReady sc => ⟨[], rest, sc, .blockNotReady, w⟩
+    | rest, .fail e sc => ⟨[], rest, sc, .iter e, w⟩
+    | [], .go a sc => ⟨[], [], sc, .success, tick w a⟩
+    | b :: r, .go a sc =>
+      if stop b then ⟨[b], r, sc, .success, tick w a⟩
+      else
+        let o := walkBlocks stop r sc (tick w a)
+        { o with seen := b :: o.seen }
 
 def It.walk (it : It) (stop : Block → Bool) (w : World) : List Block × It × World :=
   let o := walkBlocks stop it.all it.sched w
@@ -385,22 +392,27 @@ def exec (P : Params) (cb : Nat → CbRet) (set : Settings) (fs : Option Nat) (s
 
 def ruleMatches (c : Core) (r : Rule) : MatchTable := r.strings.map fun s => (s, tget c.found s)
 
+/-- the message (if any) the reporting loop sends for rule `i` (:581-593) -/
+def ruleMsg (set : Settings) (c : Core) (i : Nat) (r : Rule) : Option Msg :=
+  if r.isPrivate then none
+  else if decide (i ∈ c.ruleFlags) && !decide (r.ns ∈ c.nsUnsat) then
+    (if set.reportMatching then some (.ruleMatching i (ruleMatches c r)) else none)
+  else
+    (if set.reportNotMatching then some (.ruleNotMatching i (ruleMatches c r)) else none)
+
 /-- :577-607; `none` = loop ran to its end -/
 def report (cb : Nat → CbRet) (set : Settings) (c : Core) : List (Nat × Rule) → World → World × List Msg × Option Err
   | [], w => (w, [], none)
   | (i, r) :: rs, w =>
-    let isMatch := decide (i ∈ c.ruleFlags) && !decide (r.ns ∈ c.nsUnsat)
-    let wanted := if isMatch then set.reportMatching else set.reportNotMatching
-    if wanted && !r.isPrivate then
-      let m := if isMatch then Msg.ruleMatching i (ruleMatches c r) else Msg.ruleNotMatching i (ruleMatches c r)
-      let (ret, w') := call cb w
-      match ret with
-      | .abort => (w', [m], some .success)
-      | .error => (w', [m], some .callbackError)
+    match ruleMsg set c i r with
+    | none => report cb set c rs w
+    | some m =>
+      match cb w.nmsg with
+      | .abort => ({ w with nmsg := w.nmsg + 1 }, [m], some .success)
+      | .error => ({ w with nmsg := w.nmsg + 1 }, [m], some .callbackError)
       | .cont =>
-        let (w'', ms, e) := report cb set c rs w'
+        let (w'', ms, e) := report cb set c rs { w with nmsg := w.nmsg + 1 }
         (w'', m :: ms, e)
-    else report cb set c rs w
 
 /-! ### the whole call -/
 
@@ -420,7 +432,6 @@ def exitClean (c : Core) (rc : Err) : Core :=
 def freshInit (P : Params) (v : Variant) (c : Core) (w : World) : Core :=
   let c := if v.cleanStale && c.notebook then { c.cleanMatches with notebook := false } else c
   { c with
-    leaked := c.leaked + (if c.notebook then 1 else 0),
     notebook := true,
     reqEval := (enum P.rules).filterMap (fun p => if p.2.noReq then some p.1 else none),
     swStart := w.clock,
@@ -453,8 +464,13 @@ def scanCall (P : Params) (v : Variant) (cb : Nat → CbRet) (stack : Nat) (s : 
   else
     afterLoop P cb stack s it (blockLoop P cb s.set it.all it.sched (freshInit P v s.core w) w)
 
-/-- `yr_scanner_destroy`: the pending notebook is released only with the fix; result = notebooks leaked -/
+/-- Memory accounting. A fresh scan overwrites `matches_notebook` without looking at it (:503): if a
+    suspended scan was pending, its notebook is lost (1 leak) unless the fix released it first. -/
+def callLeaks (v : Variant) (s : Sc) (it : It) : Nat :=
+  if s.set.hasCallback && decide (it.lastError ≠ .blockNotReady) && s.core.notebook && !v.cleanStale then 1 else 0
+
+/-- `yr_scanner_destroy`: the notebook of a pending suspended scan is released only with the fix. -/
 def destroyLeaks (v : Variant) (s : Sc) : Nat :=
-  s.core.leaked + (if s.core.notebook && !v.cleanStale then 1 else 0)
+  if s.core.notebook && !v.cleanStale then 1 else 0
 
 end YaraModel.Scan
